@@ -362,9 +362,54 @@ def _exact_lengths(ctx, F):
             ctx.ok('GUARD-C30f', fn, 'no equality test over a divided length (%d equality tests)' % eqs)
     ctx.floor('GUARD-C30f', n, 2, 'equality tests in the decoders')
 
+REJECT_DECODERS = (('HeaderCodec::decode', 'Header'), ('CommitFooter::decode', 'CommitFooter'))
+REJECT_CONST = ('MAGIC', 'VERSION', 'SPEC_', 'FOOTER_SIZE')
+
+
+def _identity_rejects(ctx, F):
+    """GUARD-C30g: a decoder's identity tests (input bytes against MAGIC / VERSION / SPEC_* / FOOTER_SIZE) each reject on their
+    own: the mismatch edge of every such comparison cannot reach the block that builds the decoded value (`a != X && b != Y`
+    lets an image with one wrong byte through)."""
+    ctx.rule('GUARD-C30g', 'every identity test of a decoder (bytes vs MAGIC/VERSION/SPEC_*/FOOTER_SIZE) rejects alone: its mismatch edge cannot reach the decoded value')
+    n = 0
+    for key, adt in REJECT_DECODERS:
+        fn = ctx.need('GUARD-C30g', key)
+        if fn is None:
+            continue
+        ctx.touch(fn, len(fn.blocks))
+        okb = {bb for bb, i, s in fn.stmts() if s['rv']['k'] == 'agg' and s['rv'].get('adt') == adt}
+        if not okb:
+            ctx.lost('GUARD-C30g', '%s aggregate not found in %s' % (adt, key))
+            continue
+        for c in lib.comparisons(fn):
+            if c.rel not in ('==', '!='):
+                continue
+            a, b = c.sa(), c.sb()
+            if a.args and not b.args:
+                cs = b
+            elif b.args and not a.args:
+                cs = a
+            else:
+                continue
+            names = [k.get('name') or '' for k in cs.consts]
+            tag = [nm.rsplit('::', 1)[-1] for nm in names if any(t in nm.rsplit('::', 1)[-1] for t in REJECT_CONST)]
+            if not tag:
+                continue
+            n += 1
+            ctx.evaluations += 1
+            mism = [t for t, rel in c.edges() if rel == '!=']
+            leak = [t for t in mism if okb & (set(fn.reachable(t)) | {t})]
+            if leak:
+                ctx.bad('GUARD-C30g', fn, 'the mismatch edge of the %s test can still reach the decoded %s: an image that fails this test alone is accepted' % (tag[0], adt),
+                        line=c.line, sink=tag[0], detail='identity-test-not-rejecting:' + tag[0])
+            else:
+                ctx.ok('GUARD-C30g', fn, '%s mismatch cannot reach the decoded %s' % (tag[0], adt), line=c.line)
+    ctx.floor('GUARD-C30g', n, 4, 'identity tests in header/footer decoders (6 counted)')
+
 
 def run(ctx):
     _exact_lengths(ctx, ctx.facts())
+    _identity_rejects(ctx, ctx.facts())
     from . import c15
     ctx.rule('AGREE-C30e', 'time index: the writer sorts by (timestamp, frame_id); the reader validates the same lexicographic order')
     c15._key(ctx, ctx.facts(), rule='AGREE-C30e')
